@@ -52,12 +52,12 @@ impl Cfg {
             nu6_3,
             retention: if nu6_3 && rng.gen_bool(0.6) { Some(rng.gen_range(5..30)) } else { None },
             initial_len: rng.gen_range(22..60),
-            steps: if thorough { rng.gen_range(60..140) } else { rng.gen_range(50..100) },
+            steps: if thorough { rng.gen_range(100..220) } else { rng.gen_range(90..160) },
             spend_bias: *[0.1, 0.25, 0.4].choose(rng).unwrap(),
             base_offset: rng.gen_range(0..50),
             max_rewinds: rng.gen_range(0..=2),
             avoid_f1: rng.gen_bool(0.7),
-            max_creates: rng.gen_range(2..6),
+            max_creates: rng.gen_range(3..9),
         }
     }
 
